@@ -347,3 +347,160 @@ Definition T_flow (f : flow) : bool :=
           || existsb (fun op => wobj_trigger (f_bind f) (snd op)) (f_ops f)
   | _ => false
   end.
+
+(* ====================================================================================
+   The same contract for combined arrays of a hook with several bindings (hook cases).
+
+   INPUT: the hook's bindings — kubernetes bindings with their documented options and the
+   objects of their scope, and schedule / validating / mutating / conversion bindings, each
+   with its name, its includeSnapshotsFrom (own list and, for a binding with a group, the
+   kubernetes bindings of that group) and its group — and the events whose contexts make up
+   the array.  A binding is identified by its TYPE and its name: a schedule binding may be
+   called like a kubernetes binding.  OBSERVED: the file, and for every item the event it
+   stands for and the ResourceIds behind its `objects` and `snapshots` elements.
+
+   Every item is judged as the documented context of ITS OWN binding: `snapshots` present
+   exactly when that binding includes snapshots, with one array per name that binding
+   includes; every array element the documented rendering of the object it stands for as
+   the INCLUDED kubernetes binding renders it (its jqFilter, its keepFullObjectsInMemory),
+   for the objects as they are when the hook runs; Schedule / Validating / Mutating /
+   Conversion items with their documented fields.  Which events yield a context (C08),
+   which objects a snapshot lists (C02) and which contexts are combined (C07) are not
+   demanded here.
+   ==================================================================================== *)
+
+(* the objects in the scope of the kubernetes binding [name] when the hook runs *)
+Definition hk_alive (hc : hcase) (name : bytes) : list (bytes * wobj) :=
+  match kube_named name (hk_kube hc) with
+  | Some (_, ws) => fold_left alive_step (watch_ops name (hk_evs hc)) (alive_init ws)
+  | None => []
+  end.
+
+(* the documented elements of the `snapshots` arrays: objects of the included binding,
+   rendered with the included binding's options *)
+Definition hk_resolve_items (hc : hcase) (n : bytes) (ids : list bytes) : option (list item) :=
+  match kube_named n (hk_kube hc) with
+  | Some (b, _) => match resolve (hk_alive hc n) ids with
+                   | Some ws => Some (map (spec_item b) ws)
+                   | None => None
+                   end
+  | None => match ids with [] => Some [] | _ => None end
+  end.
+
+Fixpoint hk_resolve_snaps (hc : hcase) (l : list (bytes * list bytes)) : option (list (bytes * list item)) :=
+  match l with
+  | [] => Some []
+  | (n, ids) :: r => match hk_resolve_items hc n ids, hk_resolve_snaps hc r with
+                     | Some its, Some rs => Some ((n, its) :: rs)
+                     | _, _ => None
+                     end
+  end.
+
+(* the context the documentation describes for the event, given the objects behind the item *)
+Definition hk_expected (hc : hcase) (ev : hevent) (ids : list bytes) (snaps : list (bytes * list item))
+  : option ctx :=
+  match ev with
+  | HSync name =>
+      match kube_named name (hk_kube hc) with
+      | Some (b, _) =>
+          match resolve (hk_alive hc name) ids with
+          | Some objs => Some (mkCtx BKube (b_jq b) (b_incl b) false (b_group b) (b_name b) KSync WNone
+                                     (map (spec_item b) objs) snaps None None [] [])
+          | None => None
+          end
+      | None => None
+      end
+  | HWatch name t w =>
+      match kube_named name (hk_kube hc) with
+      | Some (b, _) =>
+          if list_eqb bytes_eqb ids [w_id w]
+          then Some (mkCtx BKube (b_jq b) (b_incl b) false (b_group b) (b_name b) KEvent t
+                           [spec_item b w] snaps None None [] [])
+          else None
+      | None => None
+      end
+  | HOther k review from to =>
+      match nth_error (hk_other hc) k, ids with
+      | Some o, [] =>
+          match ob_type o with
+          | BSchedule => Some (mkCtx BSchedule false (ob_incl o) false (ob_group o) (ob_name o) KEmpty WNone
+                                     [] snaps None None [] [])
+          | BValidating | BMutating =>
+              Some (mkCtx (ob_type o) false (ob_incl o) false (ob_group o) (ob_name o) KEmpty WNone
+                          [] snaps (Some review) None [] [])
+          | BConversion =>
+              Some (mkCtx BConversion false (ob_incl o) false (ob_group o) (ob_name o) KEmpty WNone
+                          [] snaps None (Some review) from to)
+          | _ => None
+          end
+      | _, _ => None
+      end
+  end.
+
+Definition P_hook_item (hc : hcase) (it : hitem) (j : json) : bool :=
+  match nth_error (hk_evs hc) (N.to_nat (hi_ev it)), hk_resolve_snaps hc (hi_snaps it) with
+  | Some ev, Some snaps =>
+      match hk_expected hc ev (hi_ids it) snaps with
+      | Some c =>
+          (* one array per name the item's own binding includes *)
+          list_eqb bytes_eqb (map fst (hi_snaps it)) (canon_names (c_incl c))
+          && wf1 c && P_item V1 c j
+      | None => false
+      end
+  | _, _ => false
+  end.
+
+(* the file is a JSON array with one conforming item per recorded context; a crash never conforms *)
+Definition P_hook (hc : hcase) (obs : option hobs) : bool :=
+  match obs with
+  | Some (mkHobs items (Some (JArr js))) => forall2b (P_hook_item hc) items js
+  | _ => false
+  end.
+
+(* trigger of F8 on a hook case: a kubernetes binding with a jqFilter sees an object whose jq
+   result is not a single JSON object *)
+Definition T_hook (hc : hcase) : bool :=
+  existsb (fun p => existsb (wobj_trigger (fst p)) (snd p)) (hk_kube hc)
+  || existsb (fun ev => match ev with
+                        | HWatch n _ w => match kube_named n (hk_kube hc) with
+                                          | Some (b, _) => wobj_trigger b w
+                                          | None => false
+                                          end
+                        | _ => false
+                        end) (hk_evs hc).
+
+(* two bindings of ONE type that share a name cannot be told apart by (type, name): the event
+   belongs to a binding whose (type, name) is carried by an earlier binding of the hook with
+   another set of included names *)
+Definition okey_eqb (a b : obind) : bool :=
+  btype_eqb (ob_type a) (ob_type b) && bytes_eqb (ob_name a) (ob_name b).
+
+Definition T_same_type_name (hc : hcase) : bool :=
+  existsb (fun ev => match ev with
+                     | HOther k _ _ _ =>
+                         match nth_error (hk_other hc) k with
+                         | Some o => match find (okey_eqb o) (hk_other hc) with
+                                     | Some o' => negb (list_eqb bytes_eqb (canon_names (ob_incl o'))
+                                                                 (canon_names (ob_incl o)))
+                                     | None => false
+                                     end
+                         | None => false
+                         end
+                     | _ => false
+                     end) (hk_evs hc).
+
+(* a validating and a mutating binding (or two mutating bindings) of one name share their webhook
+   id: the admission event of one of them is answered with the link of the other *)
+Definition obind_eqb (a b : obind) : bool :=
+  btype_eqb (ob_type a) (ob_type b) && bytes_eqb (ob_name a) (ob_name b)
+  && list_eqb bytes_eqb (ob_incl a) (ob_incl b) && bytes_eqb (ob_group a) (ob_group b).
+
+Definition T_admission_same_name (hc : hcase) : bool :=
+  existsb (fun ev => match ev with
+                     | HOther k _ _ _ =>
+                         match nth_error (hk_other hc) k with
+                         | Some o => is_adm (ob_type o) && negb (obind_eqb (adm_link hc o) o)
+                         | None => false
+                         end
+                     | _ => false
+                     end) (hk_evs hc).
